@@ -127,12 +127,29 @@ fn call_mut<T: ShapesMut>(t: &mut T, op: &[i64], scratch: &mut Scratch) -> Vec<i
         3 => { let v = vec![(); a(1) as usize]; vec![3, t.slz(&v) as i64] }
         4 => { let n = (a(1) as usize).min(scratch.bytes.len()); let p = scratch.bytes.as_ptr() as i64; t.slm(&mut scratch.bytes[..n]); rel_last(p, false); vec![4, digest(&scratch.bytes)] }
         5 => { let s = scratch.strings[(a(1) as usize) % scratch.strings.len()].clone(); let r = t.st(&s); rel_last(s.as_ptr() as i64, false); vec![5, r as i64] }
-        11 => { let items: Vec<u32> = (0..a(1) as u32).map(|i| i * 3 + 1).collect(); let mut it = items.into_iter(); let r = t.it((&mut it).into()); vec![11, r as i64] }
+        11 => {
+            // the items the caller sends are known: whatever the source iterator looks like (exact size hint, no size hint, a filter), the callee
+            // must see exactly them — this is checked absolutely, since the conversion happens on the caller's side in the direct run as well
+            let n = a(1) as u32;
+            let items: Vec<u32> = (0..n).map(|i| i * 3 + 1).collect();
+            let want: u64 = items.iter().map(|x| *x as u64).sum();
+            let r = match a(1) % 3 {
+                0 => { let mut it = items.into_iter(); t.it((&mut it).into()) }
+                1 => { let mut k = 0u32; let mut it = std::iter::from_fn(move || { if k < n { k += 1; Some((k - 1) * 3 + 1) } else { None } }); t.it((&mut it).into()) }
+                _ => { let mut it = (0..n * 2).filter(|i| i % 2 == 0).map(|i| (i / 2) * 3 + 1); t.it((&mut it).into()) }
+            };
+            if r != want { expect_fail(format!("iterator argument of {} items (source kind {}): the callee summed {} instead of {}", n, a(1) % 3, r, want)); }
+            vec![11, r as i64]
+        }
         15 => { let r = t.rsm(); if !r.is_empty() { r[0] = r[0].wrapping_add(5); } let d = digest(r); let again = digest(t.rs2()); vec![15, d, again] }
         17 => vec![17, t.res_e(a(1) as i32).is_ok() as i64],
         _ => vec![-1],
     }
 }
+
+thread_local! { static EXPECT: RefCell<Vec<String>> = RefCell::new(Vec::new()); }
+/// an absolute expectation of the caller (independent of the direct-vs-opaque comparison) failed
+fn expect_fail(s: String) { let d = crate::alloc::domain(0); EXPECT.with(|e| e.borrow_mut().push(s)); crate::alloc::domain(d); }
 
 /// the implementation logged an absolute address: rewrite it as an offset from the caller's buffer
 fn rel_last(base: i64, nonnull_only: bool) { LOG.with(|l| { if let Some(e) = l.borrow_mut().last_mut() { if e.len() > 2 && !(nonnull_only && e[2] == 0) { e[2] -= base; } } }); }
@@ -189,6 +206,7 @@ pub fn run(params: &[i64], ops: &Rows, mon: &mut Mon) -> Rows {
     drop(d);
     let _ = take_drops();
     if which == 0 { thunk_pass(&mine, mon); }
+    { let d = crate::alloc::domain(0); let fails = EXPECT.with(|e| std::mem::take(&mut *e.borrow_mut())); for f in fails.into_iter().take(3) { mon.fail(f); } crate::alloc::domain(d); }
     for r in res_o { out.push(r); }
     out
 }
